@@ -209,6 +209,9 @@ StripHtml(s) ==
       ELSE LET i == MinOf(opens) j == MinOf(closes(i))
            IN  SubSeq(s, 1, i - 1) \o StripHtml(SubSeq(s, j + 1, Len(s)))
 
+\* a text without a digit in it, where a filter takes a whole number: it cannot be converted - an error, also
+\* where the argument may be left out
+NoNumberStr(v) == v.k = "str" /\ \A i \in 1..Len(v.v) : v.v[i] \notin 48..57
 StringFilter(name, s, args) ==
   LET n == Len(args)
       a1 == IF n >= 1 THEN AsStr(args[1]) ELSE [ok |-> TRUE, s |-> <<>>]
@@ -247,7 +250,8 @@ StringFilter(name, s, args) ==
     [] name = "slice" ->
          \* start (and optional length, default 1) in characters; decided
          \* when the start lies inside the string and the length is >= 0
-         IF n \in {1, 2} /\ args[1].k = "int" /\ (n = 1 \/ args[2].k = "int") /\ ValidUtf8(s)
+         IF n \in {1, 2} /\ (NoNumberStr(args[1]) \/ (n = 2 /\ args[1].k = "int" /\ NoNumberStr(args[2]))) THEN FErr
+         ELSE IF n \in {1, 2} /\ args[1].k = "int" /\ (n = 1 \/ args[2].k = "int") /\ ValidUtf8(s)
          THEN LET cs == Chars(s)
                   st0 == args[1].v
                   st == IF st0 < 0 THEN st0 + Len(cs) ELSE st0
@@ -259,7 +263,8 @@ StringFilter(name, s, args) ==
     [] name = "truncate" ->
          \* decided for single-line valid text, an ellipsis free of
          \* regexp-template characters, and a length that leaves room for it
-         IF n \in {1, 2} /\ args[1].k = "int" /\ (n = 1 \/ args[2].k = "str") /\ ValidUtf8(s)
+         IF n \in {1, 2} /\ NoNumberStr(args[1]) THEN FErr
+         ELSE IF n \in {1, 2} /\ args[1].k = "int" /\ (n = 1 \/ args[2].k = "str") /\ ValidUtf8(s)
             /\ ~(10 \in {s[i] : i \in 1..Len(s)})
          THEN LET el == IF n = 2 THEN args[2].v ELSE <<46, 46, 46>>
               \* (the ellipsis counts in characters too)
@@ -309,7 +314,8 @@ NumericFilter(name, x, args) ==
     [] name = "ceil" -> IF n = 0 THEN FVal(IntV(CeilDiv(NumN(x), NumD(x)))) ELSE FUnspec
     [] name = "floor" -> IF n = 0 THEN FVal(IntV(FloorDiv(NumN(x), NumD(x)))) ELSE FUnspec
     [] name = "round" ->
-         IF n = 0 \/ (n = 1 /\ args[1].k = "int" /\ args[1].v >= 0 /\ args[1].v <= 3)
+         IF n = 1 /\ NoNumberStr(args[1]) THEN FErr
+         ELSE IF n = 0 \/ (n = 1 /\ args[1].k = "int" /\ args[1].v >= 0 /\ args[1].v <= 3)
          THEN LET p == IF n = 1 THEN args[1].v ELSE 0
                   e == 10^p
                   \* floor(x * e + 1/2) / e
